@@ -147,6 +147,64 @@ def R1_plugin(ctx):
         okc = bool(nested) and bool(obj_sw)
         detail = [short(x)[:60] for x in keys_used]
     ctx.check(okc, "overlay", "each combination is not overlaid with multiset_input[axis][index] (object choices merged, others under the axis key): %s" % detail, b.where(), detail=str(detail))
+    # the same axis everywhere: read position by position, the loop over the axes stores options[i][combination[i]] under keys[i]
+    I = ("i",)
+    aligned, why_al = False, "no loop over the axes that writes the chosen option under the axis key was found"
+    for k in cl:
+        if k[1] not in F.bodies:
+            continue
+        for kb in tree_of(F, k[1]):
+            for h, _bl in kb.natural_loops():
+                try:
+                    rows_ = [r for r in iteration_table(kb, h, stop_at_exit=True) if r.kind == "back"]
+                except Exception:
+                    continue
+                if not rows_ or not all(r.conds for r in rows_):
+                    continue
+                d0 = clean(rows_[0].conds[0][0])
+                if not (d0[0] == "discr" and d0[1][0] == "call" and re.search(r"::next$", d0[1][1])):
+                    continue
+                ELEM = d0[1]
+                pf = positional_form(F, ELEM[2][0], I)
+                # (the loop over the axes pairs several sequences; the loop over the entries of an object choice does not)
+                if pf is None or not [n for n, _ in chain_steps(F, ELEM[2][0])[1] if n in ("zip", "enumerate")]:
+                    continue
+                sub = lambda t: proj_simplify(rewrite(clean(t), lambda y: pf[0] if y == ELEM else None))
+                misdisc = None
+                for r in rows_ + [r for r in iteration_table(kb, h, stop_at_exit=True) if r.kind == "cycle"]:
+                    for dt, lab, _ in r.conds[1:]:
+                        names_ = set(lab[1]) if isinstance(lab, tuple) else {lab}
+                        if "Object" in names_ or names_ >= {"Null", "Bool", "Number"}:
+                            d_ = sub(dt)
+                            d_ = d_[1] if d_[0] == "discr" else d_
+                            while d_[0] == "call" and len(d_[2]) == 1 and re.search(r"Clone>?::clone$|::to_owned$", d_[1]):
+                                d_ = d_[2][0]
+                            if contains(d_, lambda q: q == I) and not (d_[0] == "at" and d_[1][0] == "at" and d_[1][2] == I and d_[2][0] == "at" and d_[2][2] == I):
+                                misdisc = d_
+                if misdisc is not None:
+                    aligned, why_al = False, "the object/other split looks at %s, not at options[i][combination[i]]" % short(misdisc)[:100]
+                    break
+                for r in rows_:
+                    for ptr, val in r.stores:
+                        pt = sub(ptr)
+                        if pt[0] != "at":
+                            continue
+                        K_, V_ = pt[2], sub(val)
+                        while V_[0] == "call" and len(V_[2]) == 1 and re.search(r"Clone>?::clone$|::to_owned$", V_[1]):
+                            V_ = V_[2][0]
+                        if not (contains(K_, lambda q: q == I) or contains(V_, lambda q: q == I)):
+                            continue
+                        okk = K_[0] == "at" and K_[2] == I and not contains(K_[1], lambda q: q == I)
+                        okv = V_[0] == "at" and V_[1][0] == "at" and V_[1][2] == I and V_[2][0] == "at" and V_[2][2] == I and not contains(V_[1][1], lambda q: q == I) and not contains(V_[2][1], lambda q: q == I)
+                        if okk and okv and len({K_[1], V_[1][1], V_[2][1]}) == 3:
+                            aligned = True
+                        else:
+                            aligned, why_al = False, "a write in the loop over the axes is not options[i][combination[i]] under keys[i]: key %s value %s" % (short(K_)[:80], short(V_)[:100])
+                            break
+                    else:
+                        continue
+                    break
+    ctx.check(aligned, "overlay:same-axis", "the overlay does not use the same axis index for the key, the option list and the chosen position: %s" % why_al, b.where(), detail="child[keys[i]] = options[i][combination[i]]")
 
 
 def R2_flatten(ctx):
